@@ -80,7 +80,7 @@ def load_known_findings(path=None):
         if line.startswith("finding:"):
             body = line[len("finding:"):].strip()
             # finding: property=C07 key=<rule>|<construct> :: text
-            head, _, text = body.partition("::")
+            head, _, text = body.partition(" :: ")  # keys may contain C++ `::`
             parts = head.split()
             prop = key = None
             for i, p in enumerate(parts):
